@@ -64,6 +64,13 @@ def fin (s : OpS) (r : World ProbeS × Obs) : OpS × StepOut :=
   | (w', .value v) => ({ s with w := some w' }, ⟨"ok " ++ scvTok v, "ok"⟩)
   | (_, .err e) => (s, ⟨"err", errName e⟩)
 
+/-- upgrade to the same code + the migration, with the authorisers `auths`, run through `Cgp.Operators.step` -/
+def upgradeMigrate (s : OpS) (w : World ProbeS) (auths : List Addr) : OpS × StepOut :=
+  match Operators.step (probeTgt s.probe) w (.upgradeMigrate auths) with
+  | (_, .err .unauthorized) => (s, ⟨"err", "unauthorized"⟩)
+  | (_, .err e) => (s, ⟨"err", errName e⟩)
+  | (w', _) => ({ s with w := some w' }, ⟨"ok", "ok"⟩)
+
 def step (s : OpS) (t : List String) : OpS × StepOut :=
   match t with
   | ["time", _, _] => (s, ⟨"ok", "ok"⟩)
@@ -91,10 +98,10 @@ def step (s : OpS) (t : List String) : OpS × StepOut :=
         | some a, some au => fin s (Operators.step tgt w (.transferOwnership (au.toList [w.st.owner]) a))
         | _, _ => bad s op
       | "op.upgrade_migrate", [auth] =>
-        -- upgrade to the same code + migration of the current tree: owner only, and the identity on everything modelled
-        if auth = "@" then (s, ⟨"ok", "ok"⟩) else
+        -- upgrade to the same code + migration of the current tree: the model's `.upgradeMigrate`
+        if auth = "@" then upgradeMigrate s w [w.st.owner] else
         match parseTreeAuth auth with
-        | some au => if w.st.owner ∈ au.toList [w.st.owner] then (s, ⟨"ok", "ok"⟩) else (s, ⟨"err", "unauthorized"⟩)
+        | some au => upgradeMigrate s w (au.toList [w.st.owner])
         | none => bad s op
       | "op.execute", [o, c, f, ar, au] =>
         match parseAddr o, parseAddr c, parseArgs ar, parseTreeAuth au with
